@@ -822,7 +822,10 @@ rt_prop("C06", ["cancel", "task", "bcancel"],
         "or event channel); sibling_commands_unaffected_flat (for commands without combinators: whatever polling command c does — "
         "running tasks, processing its abort, cancelling, evicting, aborting others by name — every other command keeps exactly its "
         "task slab, spawn queue, queued effects and events, liveness and abort cell; its ready queue changes only together with a "
-        "wake-up), abort_only_flags_and_wakes. Non-interference with siblings in terms of outputs is stated "
+        "wake-up), abort_only_flags_and_wakes; running_a_command_never_strands_others (Lemmas/GParkCore.lean: in a world of "
+        "commands without combinators with channel ownership, settling one un-aborted command keeps every stored task of every "
+        "OTHER live command queued, aborted or live-parked at registrations of its own waker — the executor loop invariant "
+        "RunInv, satisfiable by RunInv_nonvacuous). Non-interference with siblings in terms of outputs is stated "
         "(siblings_unaffected_goal), covered by the `cancel` profile of the correspondence.",
         goals=["siblings_unaffected_goal"])
 def _add_ext_stream():
